@@ -440,8 +440,40 @@ fn concurrent_checks(rng: &mut Rng, rounds: u64, st: &mut Stats) -> (u64, u64) {
          if nset != wantn || nall.len() != wantn.len() {
             fails.push(("CRelNoIndex_concurrent_inserts".into(), format!("threads={} retained {} of {}", threads, nall.len(), wantn.len())));
          }
+         // fresh-key races: after a barrier every worker walks the SAME sequence of fresh keys, so that all of them reach
+         // each absent key at about the same time; exactly one may win each key
+         let fresh: CRelFullIndex<K, V> = Default::default();
+         let nfresh = 200u8;
+         ascent::verif::perturb_arm(if round % 2 == 0 { perturb.rotate_left(9) | 1 } else { 0 });
+         let barrier = std::sync::Barrier::new(threads);
+         let wins: Vec<Vec<u8>> = std::thread::scope(|sc| {
+            let hs: Vec<_> = (0..threads)
+               .map(|t| {
+                  let (fresh, barrier) = (&fresh, &barrier);
+                  sc.spawn(move || {
+                     let mut won = vec![];
+                     barrier.wait();
+                     for k in 0..nfresh {
+                        if CRelFullIndexWrite::insert_if_not_present(fresh, &(k,), (t as u32,)) {
+                           won.push(k);
+                        }
+                     }
+                     won
+                  })
+               })
+               .collect();
+            hs.into_iter().map(|h| h.join().unwrap()).collect()
+         });
+         ascent::verif::perturb_arm(0);
+         for k in 0..nfresh {
+            let nw = wins.iter().flatten().filter(|w| **w == k).count();
+            if nw != 1 {
+               fails.push(("CRelFullIndex_insert_if_absent_winners".into(), format!("fresh-key race, threads={} key {}: {} winners", threads, k, nw)));
+               break;
+            }
+         }
          let lost: u64 = winners.iter().map(|w| w.len() as u64).sum();
-         (fails, (threads * per) as u64, (threads * per) as u64 - lost)
+         (fails, (threads * per) as u64 + (threads as u64 * nfresh as u64), (threads * per) as u64 - lost + (threads as u64 - 1) * nfresh as u64)
       }));
       match r {
          Ok((f, n, lostraces)) => {
